@@ -207,6 +207,10 @@ class Emitter:
 
     def fn_cname(self, d):
         if d['id'] in self.cnames: return self.cnames[d['id']]
+        first = d
+        while 'previousDecl' in first and first['previousDecl'] in self.byid: first = self.byid[first['previousDecl']]
+        if first is not d:
+            cn = self.fn_cname(first); self.cnames[d['id']] = cn; return cn
         k = d['kind']
         owner = self.owner_record(d) if k != 'FunctionDecl' else None
         name = d.get('name', '')
@@ -239,7 +243,8 @@ class Emitter:
                 t = s.get('type', {}).get('qualType')
                 if t not in seen: seen.append(t)
             if len(seen) > 1:
-                cn += '_%d' % seen.index(d.get('type', {}).get('qualType'))
+                t0 = d.get('type', {}).get('qualType')
+                cn += '_%d' % (seen.index(t0) if t0 in seen else len(seen))
         ov = self.u.get('rename', {})
         cn = ov.get(cn, cn)
         self.cnames[d['id']] = cn
@@ -288,6 +293,23 @@ class Emitter:
             raise
 
     def ty(self, q):
+        try:
+            return self._ty(q)
+        except Unsupported:
+            if not self.u.get('default_opaque'): raise
+            q1 = q.strip(); ref = False
+            if q1.endswith('&&'): q1 = q1[:-2].strip(); ref = 'rv'
+            elif q1.endswith('&'): q1 = q1[:-1].strip(); ref = True
+            q1, const = strip_cv(q1)
+            if q1.endswith('*'): raise
+            base = re.sub(r'<.*', '', q1).split('::')[-1]
+            import hashlib
+            cn = 'opq_' + cident(base)[:32] + '_' + hashlib.md5(q1.encode()).hexdigest()[:5]
+            self.opaque[cn] = q1
+            self.rules['default-opaque-type'] += 1
+            return Ty('opaque', cn, ref=ref, const=const)
+
+    def _ty(self, q):
         q0 = q
         q = q.strip()
         ref = False
@@ -402,6 +424,16 @@ class Emitter:
             if re.fullmatch(pat, q):
                 self.opaque[c] = q
                 return Ty('opaque', c, ref=ref, const=const)
+        if self.u.get('default_opaque'):
+            # DESIGN §4.2: every other class type met in a signature or a local is an opaque token
+            base = re.sub(r'<.*', '', q).split('::')[-1]
+            cn = 'opq_' + cident(base)[:40]
+            if cn in self.opaque and self.opaque[cn] != q:
+                import hashlib
+                cn = cn + '_' + hashlib.md5(q.encode()).hexdigest()[:6]
+            self.opaque[cn] = q
+            self.rules['default-opaque-type'] += 1
+            return Ty('opaque', cn, ref=ref, const=const)
         raise Unsupported('type %r (from %r)' % (q, q0))
 
     def find_record(self, q):
